@@ -76,3 +76,31 @@ V("C17-h-missing-range", "C17", "C17.1", (INT, "h10 * self.trange * self.m0 + h0
 V("C17-s-horner", "C17", "silent", (INT, "h00 = 2 * t3 - 3 * t2 + 1\n        h10 = t3 - 2 * t2 + t", "h00 = (2 * t - 3) * t2 + 1\n        h10 = t * (t2 - 2 * t + 1)"))
 V("C17-s-bisect-rename", "C17", "silent", (UTL, "        jmid = (jupper + jlower) // 2\n        if (val >= array[jmid]):\n            jlower = jmid\n        else:\n            jupper = jmid",
                                           "        jmid = (jlower + jupper) // 2\n        if not (val < array[jmid]):\n            jlower = jmid\n        else:\n            jupper = jmid"))
+
+# ---- C02 -----------------------------------------------------------------------------------------
+V("C02-a-slice2", "C02", ["C02.1", "C02.2"], (RKM, "stage_coeffs = rk_tableau[stage, 1:]", "stage_coeffs = rk_tableau[stage, 2:]"))
+V("C02-b-drop-h", "C02", "C02.2", (RKM, "intermediate_dstate = timestep * D.ar_numpy.sum(", "intermediate_dstate = D.ar_numpy.sum("))
+V("C02-c-store0", "C02", "C02.2", (RKM, "intermediate_stages_out[...,stage] = intermediate_rhs", "intermediate_stages_out[...,0] = intermediate_rhs"))
+V("C02-d-no-newton-redo", "C02", "C02.4", (ITY,
+  "                    timestep, redo_step = self.update_timestep()\n                    if self.is_implicit and not self.solver_dict.get(\"newton_iteration_success\"):\n                        redo_step = True\n                        timestep = timestep * 0.8\n",
+  "                    timestep, redo_step = self.update_timestep()\n"))
+V("C02-d2-no-newton-first", "C02", "C02.4", (ITY,
+  "            timestep, redo_step = self.update_timestep()\n            if self.is_implicit and not self.solver_dict.get(\"newton_iteration_success\"):\n                redo_step = True\n                timestep = timestep * 0.8\n",
+  "            timestep, redo_step = self.update_timestep()\n"))
+V("C02-e-or", "C02", "C02.4", (ITY, 'self.solver_dict["newton_iteration_success"] and prec < desired_tol', 'self.solver_dict["newton_iteration_success"] or prec < desired_tol'))
+V("C02-e2-noprec", "C02", "C02.4", (ITY, 'self.solver_dict["newton_iteration_success"] = self.solver_dict["newton_iteration_success"] and prec < desired_tol', 'self.solver_dict["newton_iteration_success"] = bool(self.solver_dict["newton_iteration_success"])'))
+V("C02-f-lastrow", "C02", ["C02.1", "C02.3"], (ITY, "self.dState = timestep * D.ar_numpy.sum(self.stage_values * self.tableau_final[0, 1:], axis=-1)",
+                                             "self.dState = timestep * D.ar_numpy.sum(self.stage_values * self.tableau_final[-1, 1:], axis=-1)"))
+V("C02-g-fsal-implicit", "C02", "C02.3", (ITY, "if self.is_fsal and self.is_explicit:\n            self.dState = intermediate_dstate", "if self.is_fsal:\n            self.dState = intermediate_dstate"))
+V("C02-h-time-c", "C02", "C02.2", (RKM, "initial_time + timestep * rk_tableau[stage, 0]", "initial_time + timestep * rk_tableau[stage, 1]"))
+V("C02-i-no-raise", "C02", "C02.4", (ITY, "                if redo_step:\n                    raise exception_types.FailedToMeetTolerances(", "                if False:\n                    raise exception_types.FailedToMeetTolerances("))
+V("C02-j-break-early", "C02", "C02.4", (ITY, "                    if not redo_step:\n                        break\n                if redo_step:", "                    if not redo_step or self.solver_dict['redo_count'] > 8:\n                        break\n                if redo_step and self.is_adaptive:"))
+V("C02-k-algsys-time", "C02", "C02.2", (ITY, "rhs(initial_time + tbl[0] * timestep,\n                initial_state + timestep * D.ar_numpy.sum(tbl[1:] * __aux_states, axis=-1), **constants)\n            for tbl",
+                                       "rhs(initial_time + tbl[0] * timestep,\n                initial_state + D.ar_numpy.sum(tbl[1:] * __aux_states, axis=-1), **constants)\n            for tbl"))
+V("C02-l-algsys-sign", "C02", "C02.2", (ITY, "__states = D.ar_numpy.reshape(__aux_states - __rhs_states, (-1,))", "__states = D.ar_numpy.reshape(__aux_states + __rhs_states, (-1,))"))
+V("C02-m-range-short", "C02", "C02.2", (RKM, "for stage in range(intermediate_stages_in.shape[-1]):", "for stage in range(intermediate_stages_in.shape[-1] - 1):"))
+V("C02-n-mask-sign", "C02", "C02.2", (RKM, "nonzero_coeffs_mask = stage_coeffs != 0.0", "nonzero_coeffs_mask = stage_coeffs > 0.0"))
+V("C02-o-guess-not-stored", "C02", "C02.3", (ITY, "self.stage_values = D.ar_numpy.reshape(aux_root, self.stage_values.shape)", "aux_root = D.ar_numpy.reshape(aux_root, self.stage_values.shape)"))
+V("C02-s-reorder", "C02", "silent", (RKM, "initial_time + timestep * rk_tableau[stage, 0]", "rk_tableau[stage, 0] * timestep + initial_time"))
+V("C02-s-rename", "C02", "silent", (RKM, "stage_coeffs", "a_row"), count=3)
+V("C02-s-demorgan", "C02", "silent", (ITY, "if self.is_fsal and self.is_explicit:\n            self.dState = intermediate_dstate", "if not (not self.is_fsal or self.is_implicit):\n            self.dState = intermediate_dstate"))
